@@ -20,6 +20,8 @@ def run(tier):
         scen.append({"kind": kind, "strategy": "drop", "sinks": "fast", "directed": "syncstop"})
     for kind in ("direct", "count", "analytic", "cep"):      # a synchronous sink blocked beyond the grace period: Stop returns all the same
         scen.append({"kind": kind, "strategy": "drop", "sinks": "fast", "directed": "stopgrace"})
+    for kind in ("count", "global"):      # ... also with the window's output queue full and the window goroutine waiting for room (block strategy, no timeout)
+        scen.append({"kind": kind, "strategy": "block", "sinks": "fast", "directed": "stopgrace"})
     for kind in ("direct", "analytic"):      # an EmitSync call stuck in its sink beyond the grace period
         scen.append({"kind": kind, "strategy": "drop", "sinks": "fast", "directed": "syncgrace"})
     scen.append({"kind": "cep", "strategy": "drop", "sinks": "fast", "directed": "stopgrace2"})      # the join AND the flush delivery share one grace period
